@@ -25,7 +25,7 @@ RECURSIVE Follow(_, _)
 Follow(n, hops) == IF n = "dangling" THEN "dangling" ELSE IF ~IsLink(n) THEN n ELSE IF hops > 1 THEN "loop" ELSE Follow(slot[n].to, hops + 1)
 Child(d, name) == LET c == {n \in Nodes : Parent[n] = d /\ n # "TOP" /\ n = name /\ Exists(n)} IN IF c = {} THEN "none" ELSE CHOOSE n \in c : TRUE
 RECURSIVE InsideUp(_)
-InsideUp(n) == IF n = "up" THEN TRUE ELSE IF n \in {"TOP", "dangling", "loop", "none"} THEN FALSE ELSE InsideUp(Parent[n])
+InsideUp(n) == IF n = "up" THEN TRUE ELSE IF n \notin Nodes \/ n = "TOP" THEN FALSE ELSE InsideUp(Parent[n])
 RECURSIVE Resolve(_, _)
 Resolve(loc, segs) ==
   IF loc.at = "loop" \/ segs = <<>> THEN loc
